@@ -399,7 +399,7 @@ pub fn write_b_workspace(dir: &Path, crate_prefix: &str, modules: &[(String, Str
             if crate_of(mname, k, ncrates) != c {
                 continue;
             }
-            std::fs::write(cdir.join("src").join(format!("{}.rs", mname)), src).unwrap();
+            std::fs::write(cdir.join("src").join(format!("{}.rs", mname)), fill_module_path(src, mname)).unwrap();
             writeln!(main, "mod {};", mname).unwrap();
             entries.push(format!("{}::entry()", mname));
         }
@@ -453,7 +453,7 @@ pub fn write_v_crate_n(dir: &Path, name: &str, files: &[(String, String)], no_st
             if crate_of(m, k, ncrates) != c {
                 continue;
             }
-            std::fs::write(cdir.join("src").join(format!("{}.rs", m)), src).unwrap();
+            std::fs::write(cdir.join("src").join(format!("{}.rs", m)), fill_module_path(src, m)).unwrap();
             if deny_docs {
                 writeln!(lib, "/// generated module\npub mod {};", m).unwrap();
             } else {
